@@ -14,3 +14,4 @@ CONSTANTS
  OkForms <- MCOkForms
  OkPaths <- MCOkPaths
  Lower <- MCLower
+ BadSigs = {"int"}
